@@ -209,4 +209,100 @@ theorem getMove_vr {v v' : View} (h : VR v v') (h4 : 4 ≤ v.size) (r : Rule) :
   unfold getMove
   simp only [← h.ply, adjacent_mid_vr h h4, ← mid_vr h, cairnBlackSquare_vr h, cairnWhiteSlide_vr h]
 
+/-! ### where the moves lie -/
+
+/-- a flat on a near square, or a slide that (when it starts on the board) starts on a near square and
+ends on a centre square -/
+def MoveNear (n : Nat) (m : Tak.Move) : Prop :=
+  (m.type = Facts.mtPlaceFlat ∧ nearS n m.x m.y = true) ∨
+  (m.isSlide = true ∧ (onB n m.x m.y = true →
+    nearS n m.x m.y = true ∧ ∃ dx dy, m.dest = some (dx, dy) ∧ isCentered (coreView n) dx dy = true))
+
+theorem slideElems_len (n : Nat) : ∀ s : BitVec 32, (slideElems n s).length ≤ n := by
+  induction n with
+  | zero => intro s; simp [slideElems]
+  | succ n ih =>
+    intro s
+    simp only [slideElems]
+    split
+    · simp
+    · simp only [List.length_cons]; have := ih (s >>> 4); omega
+
+theorem slides_len_le (s : BitVec 32) : Slides.len s ≤ 8 := slideElems_len 8 s
+
+/-- reading of a slide: its direction, and where it ends when it starts on a board of size ≤ 64 -/
+theorem slide_decode (m : Tak.Move) (hs : m.isSlide = true) :
+    (Spec.decode m = .invalid ∧ m.dest = none) ∨
+    ∃ d : Dir, Spec.decode m = .slide m.x m.y d (Slides.elems m.slides) ∧
+      ∀ n : Nat, n ≤ 64 → onB n m.x m.y = true →
+        m.dest = some (m.x + ((Slides.len m.slides : Nat) : Int) * d.dx, m.y + ((Slides.len m.slides : Nat) : Int) * d.dy) := by
+  unfold Move.isSlide at hs
+  have hs' : m.type ≥ 5 := of_decide_eq_true hs
+  have hl := slides_len_le m.slides
+  have hc : m.type = 5 ∨ m.type = 6 ∨ m.type = 7 ∨ m.type = 8 ∨ 9 ≤ m.type := by omega
+  rcases hc with ht | ht | ht | ht | ht
+  · right; refine ⟨.left, by simp [Spec.decode, ht, Facts.mtPlaceFlat, Facts.mtPlaceStanding, Facts.mtPlaceCapstone, Facts.mtSlideLeft], ?_⟩
+    intro n hn hb
+    rw [onB_iff] at hb
+    simp only [Move.dest, ht, Facts.mtPlaceFlat, Facts.mtPlaceStanding, Facts.mtPlaceCapstone, Facts.mtSlideLeft, Dir.dx, Dir.dy]
+    simp only [show ((5:Nat) == 2) = false by decide, show ((5:Nat) == 3) = false by decide, show ((5:Nat) == 4) = false by decide,
+      show ((5:Nat) == 5) = true by decide, Bool.or_self, Bool.false_eq_true, if_false, if_true]
+    unfold wrap8
+    congr 2 <;> omega
+  · right; refine ⟨.right, by simp [Spec.decode, ht, Facts.mtPlaceFlat, Facts.mtPlaceStanding, Facts.mtPlaceCapstone, Facts.mtSlideLeft, Facts.mtSlideRight], ?_⟩
+    intro n hn hb
+    rw [onB_iff] at hb
+    simp only [Move.dest, ht, Facts.mtPlaceFlat, Facts.mtPlaceStanding, Facts.mtPlaceCapstone, Facts.mtSlideLeft, Facts.mtSlideRight, Dir.dx, Dir.dy]
+    simp only [show ((6:Nat) == 2) = false by decide, show ((6:Nat) == 3) = false by decide, show ((6:Nat) == 4) = false by decide,
+      show ((6:Nat) == 5) = false by decide, show ((6:Nat) == 6) = true by decide, Bool.or_self, Bool.false_eq_true, if_false, if_true]
+    unfold wrap8
+    congr 2 <;> omega
+  · right; refine ⟨.up, by simp [Spec.decode, ht, Facts.mtPlaceFlat, Facts.mtPlaceStanding, Facts.mtPlaceCapstone, Facts.mtSlideLeft, Facts.mtSlideRight, Facts.mtSlideUp], ?_⟩
+    intro n hn hb
+    rw [onB_iff] at hb
+    simp only [Move.dest, ht, Facts.mtPlaceFlat, Facts.mtPlaceStanding, Facts.mtPlaceCapstone, Facts.mtSlideLeft, Facts.mtSlideRight, Facts.mtSlideUp, Dir.dx, Dir.dy]
+    simp only [show ((7:Nat) == 2) = false by decide, show ((7:Nat) == 3) = false by decide, show ((7:Nat) == 4) = false by decide,
+      show ((7:Nat) == 5) = false by decide, show ((7:Nat) == 6) = false by decide, show ((7:Nat) == 7) = true by decide,
+      Bool.or_self, Bool.false_eq_true, if_false, if_true]
+    unfold wrap8
+    congr 2 <;> omega
+  · right; refine ⟨.down, by simp [Spec.decode, ht, Facts.mtPlaceFlat, Facts.mtPlaceStanding, Facts.mtPlaceCapstone, Facts.mtSlideLeft, Facts.mtSlideRight, Facts.mtSlideUp, Facts.mtSlideDown], ?_⟩
+    intro n hn hb
+    rw [onB_iff] at hb
+    simp only [Move.dest, ht, Facts.mtPlaceFlat, Facts.mtPlaceStanding, Facts.mtPlaceCapstone, Facts.mtSlideLeft, Facts.mtSlideRight, Facts.mtSlideUp, Facts.mtSlideDown, Dir.dx, Dir.dy]
+    simp only [show ((8:Nat) == 2) = false by decide, show ((8:Nat) == 3) = false by decide, show ((8:Nat) == 4) = false by decide,
+      show ((8:Nat) == 5) = false by decide, show ((8:Nat) == 6) = false by decide, show ((8:Nat) == 7) = false by decide,
+      show ((8:Nat) == 8) = true by decide, Bool.or_self, Bool.false_eq_true, if_false, if_true]
+    unfold wrap8
+    congr 2 <;> omega
+  · left
+    have h2 : (m.type == 2) = false := by simp; omega
+    have h3 : (m.type == 3) = false := by simp; omega
+    have h4 : (m.type == 4) = false := by simp; omega
+    have h5 : (m.type == 5) = false := by simp; omega
+    have h6 : (m.type == 6) = false := by simp; omega
+    have h7 : (m.type == 7) = false := by simp; omega
+    have h8 : (m.type == 8) = false := by simp; omega
+    constructor
+    · simp [Spec.decode, Facts.mtPlaceFlat, Facts.mtPlaceStanding, Facts.mtPlaceCapstone, Facts.mtSlideLeft, Facts.mtSlideRight,
+        Facts.mtSlideUp, Facts.mtSlideDown, h2, h3, h4, h5, h6, h7, h8]
+    · simp [Move.dest, Facts.mtPlaceFlat, Facts.mtPlaceStanding, Facts.mtPlaceCapstone, Facts.mtSlideLeft, Facts.mtSlideRight,
+        Facts.mtSlideUp, Facts.mtSlideDown, h2, h3, h4, h5, h6, h7, h8]
+
+/-- **a near move is answered alike by related boards** -/
+theorem move_rel {b b' : MB} (h : BR b b') (h64 : b.size ≤ 64) (m : Tak.Move) (hm : MoveNear b.size m) :
+    OptRel (mstep b (Spec.decode m)) (mstep b' (Spec.decode m)) := by
+  rcases hm with ⟨ht, hn⟩ | ⟨hs, hsrc⟩
+  · have hd : Spec.decode m = .place m.x m.y .flat := by simp [Spec.decode, ht]
+    rw [hd]
+    exact place_rel h _ _ _ hn
+  · rcases slide_decode m hs with ⟨hinv, _⟩ | ⟨d, hd, hdest⟩
+    · rw [hinv]; left; exact ⟨rfl, rfl⟩
+    · rw [hd]
+      refine slide_rel h _ _ _ _ (fun hb => (hsrc hb).1) (fun hb => ?_)
+      obtain ⟨hn, dx, dy, hde, hc⟩ := hsrc hb
+      rw [hdest b.size h64 hb] at hde
+      cases hde
+      exact pathNear_of b.size d _ _ _ hn hc
+
 end Proofs.FPAFrame
